@@ -13,7 +13,8 @@ PROP = dict(
     explanation='theorems: header_faithful, override_exact, absent_defaults, dev_roundtrip (all 64-bit st_rdev), '
                 'readlink/xattr buffer loops complete and terminating, compress_same under the filter law, output_exact/independent (the -o file is the written bytes for every previous content of the path; Model/OutFile.v); per case Coq '
                 'evaluates wf, model=observed headers, spec(observed headers)',
-    assumptions=['archive/tar (writer and reader), the kernel\'s lstat/readlink/xattr calls and the gzip, bzip2 and xz '
+    assumptions=['constants regenerated from the source on every run (Gen/Consts.v) that the predicate or the documented part of the model rests on -- Umask (0022), StageFileUID, StageFileGID -- are compared with literals by theorem C07_constants_pinned: an edit of one of them is reported (proof obligation no longer checks) and has to be reviewed; values the manual does not state are the values of the reviewed tree',
+        'archive/tar (writer and reader), the kernel\'s lstat/readlink/xattr calls and the gzip, bzip2 and xz '
                  'programs are validated by read-back only: a header field is observed through Go\'s archive/tar reader',
                  'file contents longer than 24 bytes are compared through their SHA-256 digest, computed by the harness '
                  'on the source file and on the archive member'],
